@@ -382,7 +382,11 @@ func v18Volume(out *verifh.Out) {
 	if !out.Wants("c18-volume") {
 		return
 	}
-	const n = 5000
+	// more senders than any power-of-two table, cap or label budget one would pick: 2^15 < 40000 < 2^16, 2^18 < 300000
+	n := 40000
+	if verifh.Thorough() {
+		n = 300000
+	}
 	mem := metricslite.NewMemory()
 	mm := NewMetrics(mem, "verif", time.Time{}, nil, nil)
 	mon := NewMonitor(NewContext(nil, mm, nil), "eth0", nil, nil, false)
